@@ -207,13 +207,13 @@ def case_module(case, ctx_prelude=None, extern_decl=None):
             if x not in inner:
                 L.append("        " + x)
         d0 = len(L)
-        for x in decl_lines(case):
+        for x in decl_lines(case, ename=case.get("ename", "E")):
             L.append("        " + x)
         d1 = len(L)
         L.append("    }")
     L.append("    pub mod g {")
     g0 = len(L)
-    for x in glue_lines(case, path=extern_decl or "super::d"):
+    for x in glue_lines(case, ename=case.get("ename", "E"), path=extern_decl or "super::d"):
         L.append("        " + x)
     g1 = len(L)
     L.append("    }")
@@ -231,7 +231,7 @@ def decl_module(case, ctx_prelude=None):
         if x not in inner:
             L.append("        " + x)
     d0 = len(L)
-    for x in decl_lines(case):
+    for x in decl_lines(case, ename=case.get("ename", "E")):
         L.append("        " + x)
     d1 = len(L)
     L += ["    }", "}"]
